@@ -447,6 +447,13 @@ def generate(rnd, tier):
     sg = G.StatefulGen(rnd)
     for _ in range(150 if tier == "quick" else 2500):
         out.append(("stateful-random", sg.script()))
+    # scope stacks of ONE name: nested binders, the same value at non-adjacent depths (A-B-A ...)
+    for rep in range(3 if tier == "quick" else 25):
+        for tag, t in G.scope_directed(rnd):
+            out.append(("scope:" + tag, t))
+    ss = G.ScopeStackGen(rnd)
+    for _ in range(120 if tier == "quick" else 2500):
+        out.append(("scope-random", ss.script()))
     g = G.ScriptGen(rnd)
     good = []
     for i in range(n):
